@@ -8,6 +8,7 @@ use crate::env::{Callback, ExecEnv};
 use crate::mc::{Hist, Model, RunOut, Violation, Worker};
 use crate::util::{arena_op, classify_panic, Hasher128, PanicClass};
 use bumpalo::collections::String as BString;
+use bumpalo::collections::Vec as BVec;
 use bumpalo::Bump;
 use std::ops::Bound;
 use std::panic::{catch_unwind, AssertUnwindSafe};
@@ -71,6 +72,8 @@ pub enum SAct {
     Slice { r: SRg },
     AddStr { s: u8 },
     IsCharBoundary { i: u8 },
+    /// the String's own trait surface (not the str it derefs to): see `inspect_str`
+    Inspect { k: u8 },
     Canary,
 }
 
@@ -134,6 +137,9 @@ pub trait StrLike: Sized {
     fn s_shrink(&mut self);
     fn s_bytes_roundtrip(self) -> Self;
     fn s_add(self, s: &str) -> Self;
+    fn s_inspect(&mut self, other: &Self, k: u8, pool: &str, obs: &mut Obs);
+    /// (valid_up_to, error text, bytes handed back) of the container's from_utf8 on invalid input
+    fn s_from_utf8_err(&self, bytes: &[u8], obs: &mut Obs);
 }
 
 struct TickChars<'a> {
@@ -149,7 +155,7 @@ impl<'a> Iterator for TickChars<'a> {
 }
 
 macro_rules! impl_strlike {
-    ($ty:ty, $fresh:expr, $fromstr:expr, $fromchars:expr, $format:expr, $leak:expr, $roundtrip:expr) => {
+    ($ty:ty, $fresh:expr, $fromstr:expr, $fromchars:expr, $format:expr, $leak:expr, $roundtrip:expr, $utf8err:expr) => {
         impl StrLike for $ty {
             fn fresh(&self) -> Self {
                 $fresh(self)
@@ -257,6 +263,14 @@ macro_rules! impl_strlike {
             fn s_bytes_roundtrip(self) -> Self {
                 $roundtrip(self)
             }
+            fn s_inspect(&mut self, other: &Self, k: u8, pool: &str, obs: &mut Obs) {
+                let me: Self = self.s_clone();
+                let same: Self = self.s_clone();
+                inspect_str::<Self>(self, other, me, same, k, pool, obs);
+            }
+            fn s_from_utf8_err(&self, bytes: &[u8], obs: &mut Obs) {
+                $utf8err(self, bytes, obs)
+            }
             fn s_add(self, s: &str) -> Self {
                 self + s
             }
@@ -281,6 +295,29 @@ impl_strlike!(
     |s: BString<'static>| -> BString<'static> {
         let v = s.into_bytes();
         BString::from_utf8(v).expect("valid text round-trips")
+    },
+    |s: &BString<'static>, bytes: &[u8], obs: &mut Obs| {
+        let mut v = BVec::new_in(sb(s));
+        v.extend_from_slice(bytes);
+        match BString::from_utf8(v) {
+            Ok(t) => obs.n(1000 + t.len() as i64),
+            Err(e) => {
+                obs.n(e.utf8_error().valid_up_to() as i64);
+                obs.n(e.utf8_error().error_len().map_or(-1, |x| x as i64));
+                obs.n(e.as_bytes().len() as i64);
+                {
+                    // harness formatting: not arena traffic
+                    let _g = Callback::enter();
+                    let t = format!("{}|{:?}", e, e.utf8_error());
+                    obs.n(t.bytes().fold(7i64, |a, c| (a * 31 + c as i64) % 1_000_003));
+                }
+                let back = e.into_bytes();
+                obs.n(back.len() as i64);
+                for b in back.iter() {
+                    obs.n(*b as i64);
+                }
+            }
+        }
     }
 );
 
@@ -294,8 +331,150 @@ impl_strlike!(
     |s: String| -> String {
         let v = s.into_bytes();
         String::from_utf8(v).expect("valid text round-trips")
+    },
+    |_s: &String, bytes: &[u8], obs: &mut Obs| {
+        match String::from_utf8(bytes.to_vec()) {
+            Ok(t) => obs.n(1000 + t.len() as i64),
+            Err(e) => {
+                obs.n(e.utf8_error().valid_up_to() as i64);
+                obs.n(e.utf8_error().error_len().map_or(-1, |x| x as i64));
+                obs.n(e.as_bytes().len() as i64);
+                let t = format!("{}|{:?}", e, e.utf8_error());
+                obs.n(t.bytes().fold(7i64, |a, c| (a * 31 + c as i64) % 1_000_003));
+                let back = e.into_bytes();
+                obs.n(back.len() as i64);
+                for b in back.iter() {
+                    obs.n(*b as i64);
+                }
+            }
+        }
     }
 );
+
+fn fold_str(t: &str) -> i64 {
+    t.bytes().fold(t.len() as i64 + 7, |a, c| (a * 31 + c as i64) % 1_000_003)
+}
+
+fn ocode(o: Option<std::cmp::Ordering>) -> i64 {
+    match o {
+        None => 9,
+        Some(std::cmp::Ordering::Less) => 1,
+        Some(std::cmp::Ordering::Equal) => 2,
+        Some(std::cmp::Ordering::Greater) => 3,
+    }
+}
+
+/// The string type's own trait impls (everything that does not simply go through `Deref<Target = str>`).
+/// `me`/`same` are clones of `s` (consumed by the `Extend<Self>` and `clone_from` cases).
+#[allow(clippy::too_many_arguments)]
+fn inspect_str<S>(s: &mut S, other: &S, me: S, same: S, k: u8, pool: &str, obs: &mut Obs)
+where
+    S: StrLike + std::fmt::Display + std::fmt::Debug + std::hash::Hash + PartialEq + PartialEq<str> + for<'x> PartialEq<&'x str> + for<'x> PartialEq<std::borrow::Cow<'x, str>> + PartialOrd + Ord + Clone,
+    S: AsRef<str> + AsRef<[u8]> + std::borrow::Borrow<str> + std::borrow::BorrowMut<str> + std::ops::DerefMut<Target = str>,
+    S: std::ops::Index<std::ops::Range<usize>, Output = str> + std::ops::Index<std::ops::RangeTo<usize>, Output = str> + std::ops::Index<std::ops::RangeFrom<usize>, Output = str> + std::ops::Index<std::ops::RangeFull, Output = str> + std::ops::Index<std::ops::RangeInclusive<usize>, Output = str> + std::ops::Index<std::ops::RangeToInclusive<usize>, Output = str>,
+    S: std::ops::IndexMut<std::ops::Range<usize>> + std::ops::IndexMut<std::ops::RangeTo<usize>> + std::ops::IndexMut<std::ops::RangeFrom<usize>> + std::ops::IndexMut<std::ops::RangeFull> + std::ops::IndexMut<std::ops::RangeInclusive<usize>> + std::ops::IndexMut<std::ops::RangeToInclusive<usize>>,
+    S: for<'x> Extend<&'x char> + Extend<S> + Extend<String> + for<'x> Extend<std::borrow::Cow<'x, str>> + for<'x> Extend<&'x str> + for<'x> std::ops::AddAssign<&'x str>,
+    str: PartialEq<S>,
+    for<'x> &'x str: PartialEq<S>,
+    for<'x> std::borrow::Cow<'x, str>: PartialEq<S>,
+{
+    use std::hash::{Hash, Hasher};
+    let len = s.st().len();
+    // char boundaries to slice at
+    let b1 = s.st().char_indices().nth(1).map_or(len, |x| x.0);
+    match k {
+        0 => {
+            let _g = Callback::enter();
+            let t = format!("{}|{:>9}|{:<9}|{:^9}|{:.2}|{:*>7.1}|{:?}|{:#?}|{:>12?}", s, s, s, s, s, s, s, s, s);
+            obs.n(fold_str(&t));
+            let mut h1 = std::collections::hash_map::DefaultHasher::new();
+            Hash::hash(&*s, &mut h1);
+            let mut h2 = std::collections::hash_map::DefaultHasher::new();
+            Hash::hash(s.st(), &mut h2);
+            obs.n((h1.finish() == h2.finish()) as i64);
+        }
+        1 => {
+            let o: &str = other.st();
+            let cow_b: std::borrow::Cow<str> = std::borrow::Cow::Borrowed(o);
+            let _g = Callback::enter();
+            let cow_o: std::borrow::Cow<str> = std::borrow::Cow::Owned(o.to_string());
+            let bits = [*s == *other, *s != *other, *s == *o, *s == o, *o == *s, o == *s, *s == cow_b, cow_b == *s, *s == cow_o, cow_o == *s, *s == same, *s == *s.st(), *s.st() == *s, *s < *other, *s <= *other, *s > *other, *s >= *other];
+            obs.n(bits.iter().fold(0i64, |a, b| a * 2 + *b as i64));
+            obs.n(ocode(PartialOrd::partial_cmp(&*s, other)));
+            obs.n(ocode(Some(Ord::cmp(&*s, other))));
+            obs.n(ocode(Some(Ord::cmp(other, &*s))));
+        }
+        2 => {
+            let a: &str = AsRef::<str>::as_ref(&*s);
+            obs.n(fold_str(a));
+            let b: &[u8] = AsRef::<[u8]>::as_ref(&*s);
+            obs.n(b.len() as i64);
+            let c: &str = std::borrow::Borrow::<str>::borrow(&*s);
+            obs.n(fold_str(c));
+            {
+                let m: &mut str = std::borrow::BorrowMut::<str>::borrow_mut(s);
+                m.make_ascii_uppercase();
+            }
+            obs.n(fold_str(s.st()));
+            {
+                let m: &mut str = &mut **s;
+                m.make_ascii_lowercase();
+            }
+            obs.n(fold_str(s.st()));
+        }
+        3 => {
+            obs.n(fold_str(&s[b1..len]) * 7 + fold_str(&s[..b1]) * 5 + fold_str(&s[b1..]) * 3 + fold_str(&s[..]));
+            if b1 > 0 {
+                obs.n(fold_str(&s[0..=b1 - 1]) * 3 + fold_str(&s[..=b1 - 1]));
+            }
+            s[b1..len].make_ascii_uppercase();
+            obs.n(fold_str(s.st()));
+            s[..b1].make_ascii_uppercase();
+            s[b1..].make_ascii_lowercase();
+            obs.n(fold_str(s.st()));
+            s[..].make_ascii_uppercase();
+            if b1 > 0 {
+                s[0..=b1 - 1].make_ascii_lowercase();
+                s[..=b1 - 1].make_ascii_uppercase();
+            }
+            obs.n(fold_str(s.st()));
+        }
+        4 => {
+            let chars: Vec<char> = { let _g = Callback::enter(); pool.chars().collect() };
+            s.extend(chars.iter());
+            obs.n(fold_str(s.st()));
+            {
+                let _g = Callback::enter();
+                drop(chars);
+            }
+        }
+        5 => {
+            s.extend(std::iter::once(me));
+            obs.n(fold_str(s.st()));
+            let owned: Vec<String> = { let _g = Callback::enter(); vec![pool.to_string(), String::new(), pool.to_string()] };
+            // the callee drops the std Strings (and the Vec's buffer) it is given
+            let _gifts = crate::env::Gifts::enter();
+            s.extend(owned);
+            obs.n(fold_str(s.st()));
+            return;
+        }
+        6 => {
+            let cows: Vec<std::borrow::Cow<str>> = { let _g = Callback::enter(); vec![std::borrow::Cow::Borrowed(pool), std::borrow::Cow::Owned(pool.to_string())] };
+            let _gifts = crate::env::Gifts::enter();
+            s.extend(cows);
+            obs.n(fold_str(s.st()));
+            *s += pool;
+            obs.n(fold_str(s.st()));
+        }
+        _ => {
+            let mut t = me;
+            t.clone_from(other);
+            obs.n(fold_str(t.st()));
+            obs.n((t == *other) as i64);
+            drop(t);
+        }
+    }
+}
 
 fn spred(p: u8, call: usize, c: char) -> bool {
     match p {
@@ -397,6 +576,20 @@ fn apply<S: StrLike>(slot: &mut Option<S>, world: u8, act: SAct) -> Obs {
             drop(slot.replace(n));
         }
         SAct::IsCharBoundary { i } => obs.n(s.st().is_char_boundary(bidx(i)) as i64),
+        SAct::Inspect { k } => {
+            if k == 20 {
+                for bytes in [&b"ab\xffcd"[..], &b"\xe2\x82"[..], &b"ok"[..], &b"\xf0\x9f\x98"[..], &b"a\xc3\x28"[..]] {
+                    s.s_from_utf8_err(bytes, &mut obs);
+                }
+            } else {
+                let mut other = s.s_clone();
+                if k % 2 == 1 {
+                    let _ = other.s_pop();
+                }
+                s.s_inspect(&other, k, POOL[(k as usize) % POOL.len()], &mut obs);
+                drop(other);
+            }
+        }
     }
     obs
 }
@@ -431,6 +624,7 @@ pub fn sact_name(a: &SAct) -> &'static str {
         SAct::Slice { .. } => "index_range",
         SAct::AddStr { .. } => "add",
         SAct::IsCharBoundary { .. } => "is_char_boundary",
+        SAct::Inspect { .. } => "inspect",
         SAct::Canary => "neighbour_raw_alloc",
     }
 }
@@ -481,6 +675,15 @@ impl StrModel {
         a.push(SAct::Pop);
         a.push(SAct::Clear);
         a.push(SAct::CloneCmp);
+        for k in [0u8, 1, 2, 3, 7, 20] {
+            a.push(SAct::Inspect { k });
+        }
+        if room >= 8 {
+            // the Extend impls for &char / Self / std String / Cow<str>, and +=
+            for k in [4u8, 5, 6] {
+                a.push(SAct::Inspect { k });
+            }
+        }
         a.push(SAct::IntoBumpStr);
         a.push(SAct::ShrinkToFit);
         a.push(SAct::BytesRoundTrip);
